@@ -244,6 +244,12 @@ func genCase(t *rapid.T) Case {
 	k := gen.QueryNames
 	c.Cfg.OptSeed = rapid.IntRange(0, 1000).Draw(t, "option-order")
 	c.Cfg.CustomCaches = rapid.IntRange(0, 3).Draw(t, "custom-caches") == 2
+	if c.Cfg.CustomCaches && rapid.Bool().Draw(t, "bounded-caches") {
+		// bounded user caches: Parse / Bind of one name too many fails like any other extended message
+		c.Cfg.StmtCap = rapid.IntRange(0, 2).Draw(t, "stmt-cap")
+		c.Cfg.PortalCap = rapid.IntRange(0, 2).Draw(t, "portal-cap")
+		b.md.StmtCap, b.md.PortalCap = c.Cfg.StmtCap, c.Cfg.PortalCap
+	}
 	nb := rapid.IntRange(1, 5).Draw(t, "nbatches")
 	if rapid.IntRange(0, 39).Draw(t, "long-lived") == 17 {
 		nb = rapid.IntRange(20, 60).Draw(t, "nbatches-long") // a long-lived connection
